@@ -47,23 +47,63 @@ fn on_dealloc(size: usize) {
     });
 }
 
+/// Requests of at least this size are served by an anonymous, not reserved mapping: an absurd
+/// reservation (the defect class C13 looks for) then costs address space only, is recorded, and
+/// does not abort the process the way a failed `malloc` would.
+pub const BIG: usize = 256 << 20;
+
+unsafe fn big_alloc(size: usize) -> *mut u8 {
+    let p = libc::mmap(
+        std::ptr::null_mut(),
+        size,
+        libc::PROT_READ | libc::PROT_WRITE,
+        libc::MAP_PRIVATE | libc::MAP_ANONYMOUS | libc::MAP_NORESERVE,
+        -1,
+        0,
+    );
+    if p == libc::MAP_FAILED {
+        std::ptr::null_mut()
+    } else {
+        p as *mut u8
+    }
+}
+
 unsafe impl GlobalAlloc for Counting {
     unsafe fn alloc(&self, layout: Layout) -> *mut u8 {
         on_alloc(layout.size());
+        if layout.size() >= BIG {
+            return big_alloc(layout.size());
+        }
         System.alloc(layout)
     }
 
     unsafe fn alloc_zeroed(&self, layout: Layout) -> *mut u8 {
         on_alloc(layout.size());
+        if layout.size() >= BIG {
+            return big_alloc(layout.size());
+        }
         System.alloc_zeroed(layout)
     }
 
     unsafe fn dealloc(&self, ptr: *mut u8, layout: Layout) {
         on_dealloc(layout.size());
+        if layout.size() >= BIG {
+            libc::munmap(ptr as *mut libc::c_void, layout.size());
+            return;
+        }
         System.dealloc(ptr, layout)
     }
 
     unsafe fn realloc(&self, ptr: *mut u8, layout: Layout, new_size: usize) -> *mut u8 {
+        if layout.size() >= BIG || new_size >= BIG {
+            let new_layout = Layout::from_size_align_unchecked(new_size, layout.align());
+            let np = self.alloc(new_layout);
+            if !np.is_null() {
+                std::ptr::copy_nonoverlapping(ptr, np, layout.size().min(new_size));
+                self.dealloc(ptr, layout);
+            }
+            return np;
+        }
         on_dealloc(layout.size());
         on_alloc(new_size);
         System.realloc(ptr, layout, new_size)
